@@ -24,6 +24,7 @@ EXPLANATION = (
     "importer builds nodecls(parent=parent, **attrs) from the copy minus exactly 'children', iterates the children in order "
     "and recurses with parent=<the node just built>; import_ passes data unchanged; X7 a container handed down the import recursion whose membership test ends in a raise has every add undone on every normal path to the exit (it holds the dicts on the current path only, so a dict object that merely occurs twice is not refused); X6 Node/AnyNode constructors put keyword "
     "attributes straight into the instance dict (any key is storable and exported again). Not decided: round-trip equality."
+    " Added in round 16: X5 every entry of the children list reaches the recursive import on every normal path (skips only behind `is None` / non-dict tests: `{}` is a legal leaf); an importer that builds the node in several places gets no verdict."
 )
 ASSUMPTIONS = ["node.__dict__ holds the instance attributes; user nodecls/dictcls/attriter/childiter are opaque"]
 DE = "anytree/exporter/dictexporter.py"
@@ -431,6 +432,14 @@ def run(ctx):
     # ---------------------------------------------------------------- X5
     ctor = find_calls(imp, lambda c: norm(c.func) == "self.nodecls")
     attrs_name = next(iter(shallow), None)
+    builds = find_calls(imp, lambda c: any(k.arg == "parent" for k in c.keywords) and any(k.arg is None for k in c.keywords))
+    _orig_viol = ctx.viol
+    if (not ctor and builds) or len(builds) > 1:
+        # the node is built in more than one place / through something else than self.nodecls (a leaf fast path, the class handed
+        # down the recursion): the pinned shape of the import is gone - no verdict for X5 rather than a list of mismatches
+        ctx.extra["X3_undecided"] = ctx.extra.get("X3_undecided") or \
+            "C10: DictImporter.__import builds the node in %d place(s), not through one self.nodecls(parent=parent, **attrs): this implementation of the import is not followed" % len(builds)
+        ctx.viol = lambda rule, *a, **k: None if rule == "X5" else _orig_viol(rule, *a, **k)
     if len(ctor) == 1:
         c = ctor[0]
         kw = {k.arg: k.value for k in c.keywords}
@@ -519,6 +528,7 @@ def run(ctx):
         ctx.inst("X5", top, tc[0], "import_ delegates with the data unchanged and no parent")
     else:
         ctx.viol("X5", top, top.node, "import_ does not return self.__import(data)", construct="import_: delegation")
+    ctx.viol = _orig_viol
     # ---------------------------------------------------------------- X7 bookkeeping that can refuse an input
     # a container handed down the recursion whose membership test ends in a raise: it must hold the dicts on the CURRENT
     # path only (every add is undone on every normal path to the exit) - otherwise a dictionary object that merely occurs
